@@ -30,7 +30,11 @@ func (s *State) evalUnquoteCalls(quoted ast.Node) ast.Node {
 			return node
 		}
 		unquoted := s.evalInternal(call.Parameters[0])
-		return convertObjectToASTNode(unquoted)
+		n := convertObjectToASTNode(unquoted)
+		if n == nil { // not convertible to code (error, string, ...): an error node, never a hole in the tree.
+			return s.MacroErrorf("unquote: can't convert to code: %s", unquoted.Inspect())
+		}
+		return n
 	})
 }
 
